@@ -3,11 +3,16 @@
     inductive types.  Run with the build directory as working directory:
     the files sbmodel.ml / sbmodel.mli are written there. *)
 From Coq Require Import Extraction ExtrOcamlBasic.
-From SB Require Import Base.Prelude Gen.Generated Model.Codec Model.Colors Spec.CodecSpec.
+From SB Require Import Base.Prelude Gen.Generated Model.Codec Model.Colors Spec.CodecSpec
+  Model.Crc Model.Container Spec.CrcSpec Spec.ContainerSpec.
 
 Extraction Language OCaml.
 
 Extraction "sbmodel.ml"
   (* C19 *)
   parse_u16 parse_i16 parse_u32 parse_i32 write_u16 write_u32 parse_varuint32 varuint_spec
-  decode_rgb565 encode_rgb565 rgbw_min_sub rgbw_fixed.
+  decode_rgb565 encode_rgb565 rgbw_min_sub rgbw_fixed
+  (* C04 C05 *)
+  crc_update file_crc crc_spec zero_field
+  parser_init rewind seek_to_next_block find_first read_current_block read_current_block_ex block_valid
+  init_spec all_records find_spec tail_error body_of.
